@@ -389,37 +389,6 @@ def _size_args(nodes):
     return tags, body
 
 
-def underprediction_causes(exp):
-    """Features of a tree for which a character-counting / unpadded sizer
-    predicts too little, with the number of bytes each explains."""
-    causes = {}
-
-    def rec(t):
-        if t[0] == 'bundle':
-            for e in t[2]:
-                rec(e)
-            return
-        args(t[2])
-
-    def args(nodes):
-        for e in nodes:
-            if e[0] == 's':
-                d = _pad_s(len(e[1].encode('utf-8'))) - _pad_s(len(e[1]))
-                if d > 0:
-                    causes['str-sized-by-characters-not-utf8-bytes'] = \
-                        causes.get('str-sized-by-characters-not-utf8-bytes', 0) + d
-            elif e[0] == 'b':
-                d = -len(e[1]) % 4
-                if d:
-                    causes['blob-not-padded'] = causes.get('blob-not-padded', 0) + d
-            elif e[0] == 'arr':
-                args(e[1])
-            elif e[0] in ('blobmsg', 'blobbundle'):
-                rec(e[1])
-    rec(exp)
-    return causes
-
-
 # --------------------------------------------------------------------------
 # generators
 # --------------------------------------------------------------------------
